@@ -39,7 +39,7 @@ ASSUMPTIONS = [
   'engine part: every generated bundle is well-formed apart from the name, so a rejected bundle means no id '
   'could be chosen for the requested name and is reported (C21:engine:rejected-<Exc>)',
 ]
-BUDGET = {'quick': dict(examples=6000, shards=8, max_seconds=60),
+BUDGET = {'quick': dict(examples=8000, shards=8, max_seconds=60),
           'thorough': dict(examples=240000, shards=16, max_seconds=600)}
 
 IDENT_RE = re.compile(r'\A[A-Za-z][A-Za-z0-9_]*\Z')     # ($ would accept a trailing newline)
@@ -472,7 +472,7 @@ def parts():
 def strategy(tier):
   pure, eng = parts()
   # weights per 1000 (engine case ~100x the cost of a pure one; kept away from the ends of the range)
-  table = [(487, pure), (26, eng), (487, pure)]
+  table = [(460, pure), (80, eng), (460, pure)]
 
   def pick(n):
     for w, s in table:
